@@ -2,6 +2,7 @@ package sym
 
 import (
 	"fmt"
+	"regexp"
 	"go/types"
 	"math"
 	"strconv"
@@ -74,6 +75,31 @@ func init() {
 			return &HostObj{Kind: "reader", Data: d}
 		},
 		"(*bytes.Reader).Read":   inReaderRead,
+		"(*bytes.Reader).Seek": func(ip *Interp, fn *ssa.Function, a []Value) Value {
+			r := a[0].(*HostObj)
+			off := int(ip.concInt(a[1]))
+			switch ip.concInt(a[2]) {
+			case 0:
+				r.Pos = off
+			case 1:
+				r.Pos += off
+			case 2:
+				r.Pos = len(r.Data) + off
+			}
+			if r.Pos < 0 {
+				r.Pos = 0
+				return TupleV{ip.p.T.Const(64, 0), ip.mkError("bytes.Reader.Seek: negative position")}
+			}
+			return TupleV{ip.p.T.Const(64, uint64(r.Pos)), IfaceV{}}
+		},
+		"(*bytes.Reader).Len": func(ip *Interp, fn *ssa.Function, a []Value) Value {
+			r := a[0].(*HostObj)
+			n := len(r.Data) - r.Pos
+			if n < 0 {
+				n = 0
+			}
+			return ip.p.T.Const(64, uint64(n))
+		},
 		"(*strings.Reader).Read": inReaderRead,
 
 		"sort.SliceStable": inSortSlice,
@@ -158,6 +184,15 @@ func init() {
 			return SliceV{Data: d}
 		},
 		"internal/stringslite.Index": inIndexSub,
+		"regexp.MatchString": func(ip *Interp, fn *ssa.Function, a []Value) Value {
+			pat := ip.concStr(a[0].(*StrV))
+			str := ip.concStr(a[1].(*StrV))
+			m, err := regexp.MatchString(pat, str)
+			if err != nil {
+				return TupleV{ip.p.T.Bool(m), ip.mkError(err.Error())}
+			}
+			return TupleV{ip.p.T.Bool(m), IfaceV{}}
+		},
 		"runtime.NumCPU": func(ip *Interp, fn *ssa.Function, a []Value) Value {
 			if ip.numCPU > 0 {
 				return ip.p.T.Const(64, uint64(ip.numCPU))
